@@ -420,6 +420,13 @@ class PathEngine:
             ci = self._new_record_class(cands[0]) if len(cands) == 1 else None
             if ci is None and len(cands) == 1 and isinstance(key, str) and self._holder_fields(self.prog.classes[cands[0]]) is not None:
                 return dict(base[3]).get(key)
+            if ci is None and len(cands) == 1 and isinstance(key, str):
+                # a field of a freshly constructed plain dataclass / NamedTuple of the library (no __init__, no
+                # __post_init__, no member of that name): the argument it was built with
+                c0 = self.prog.classes[cands[0]]
+                plain = (any(ast.unparse(d).split("(")[0].split(".")[-1] == "dataclass" for d in c0.node.decorator_list) or any(ast.unparse(b).split(".")[-1] == "NamedTuple" for b in c0.node.bases)) and not any(m in k.methods for k in self.prog.mro(c0) for m in ("__init__", "__post_init__", "__getattribute__", "__getattr__", key))
+                if plain and key in self.prog.all_fields(c0):
+                    ci = c0
             if ci is not None:
                 fields = self.prog.all_fields(ci)
                 vals: dict[str, Any] = {}
@@ -474,6 +481,10 @@ class PathEngine:
                 ec = self.prog.enum_const(x, stub.func)
                 if ec is not None:
                     return ("enum", ec[0], ec[1])
+                if x.attr in ("value", "name") and isinstance(x.value, ast.Attribute):
+                    ec = self.prog.enum_const(x.value, stub.func)
+                    if ec is not None:
+                        return ("attr", ("enum", ec[0], ec[1]), x.attr)
             if isinstance(x, ast.Name):
                 k2, p2 = self.prog.lookup_name(x.id, None, m)
                 if k2 == "class" and x.id in self.kinds.parent:
@@ -509,11 +520,28 @@ class PathEngine:
                 return None
             return ("pure", "new " + p2.name, tuple(args), tuple(sorted(kws.items())))
 
+        def table(x: ast.expr) -> Any:
+            # a decision table written as data: {constant / enum member: scalar or flat tuple}
+            if not isinstance(x, ast.Dict) or not x.keys or any(k is None for k in x.keys):
+                return None
+            pairs = []
+            for k, v in zip(x.keys, x.values):
+                kk = scalar(k)
+                vv = scalar(v)
+                if vv is None:
+                    vv = coll(v)
+                if kk is None or vv is None or kk[0] not in ("const", "enum"):
+                    return None
+                pairs.append((kk, vv))
+            return ("dict", tuple(pairs))
+
         out = scalar(val)
         if out is None:
             out = coll(val)
         if out is None:
             out = record(val)
+        if out is None:
+            out = table(val)
         cache[ck] = out
         return out
 
@@ -581,6 +609,14 @@ class PathEngine:
                 if rf is not None:
                     return rf
             loc = ("sub", base, idx)
+            if loc not in store and isinstance(base, tuple) and base:
+                # indexing a constant table / tuple with a constant: the element
+                if base[0] == "dict" and idx[0] in ("const", "enum") and all(k[0] in ("const", "enum") for k, _v in base[1]):
+                    hit = [v for k, v in base[1] if k == idx]
+                    if len(hit) == 1:
+                        return hit[0]
+                if base[0] == "tuple" and idx[0] == "const" and isinstance(idx[1], int) and not isinstance(idx[1], bool) and 0 <= idx[1] < len(base[1]):
+                    return base[1][idx[1]]
             return store.get(loc, loc)
         if isinstance(e, ast.Call):
             r = env.get(("$r", id(e)))
@@ -682,6 +718,7 @@ class PathEngine:
         max_paths: int = 60000,
         key: str = "",
         _depth: int = 0,
+        store0: dict | None = None,
     ) -> list[SymPath]:
         ck = (fi.qual, key, start, tuple(sorted(stop_at or ())))
         if raises is None and env0 is None and ck in self._cache:
@@ -702,7 +739,7 @@ class PathEngine:
             env.update(env0)
         out: list[SymPath] = []
         # explicit stack: (node id, env, store, items, literal map, loop visits, pending)
-        stack: list[tuple] = [(cfg.entry if start is None else start, env, {}, [], {}, {}, False)]
+        stack: list[tuple] = [(cfg.entry if start is None else start, env, dict(store0 or {}), [], {}, {}, False)]
         steps = 0
         while stack:
             nid, env, store, items, lits, visits, trunc = stack.pop()
@@ -896,6 +933,16 @@ class PathEngine:
             return None
         if atom[0] == "cmp" and atom[1] == "is" and atom[3] == ("const", None) and isinstance(atom[2], tuple) and atom[2] and atom[2][0] == "exc":
             return False
+        if atom[0] == "pure" and atom[1] == "isinstance" and len(atom[2]) == 2 and isinstance(atom[2][0], tuple) and len(atom[2][0]) > 1 and atom[2][0][0] == "pure" and isinstance(atom[2][0][1], str) and atom[2][0][1].startswith("new "):
+            # isinstance(<constructor term of class X>, C): decided by X's base classes
+            cname = atom[2][0][1][4:]
+            cands = [c for c in self.prog.classes.values() if c.name == cname]
+            cl = atom[2][1]
+            terms = list(cl[1]) if isinstance(cl, tuple) and cl and cl[0] == "tuple" else [cl]
+            if len(cands) == 1 and all(isinstance(t, tuple) and len(t) == 2 and t[0] == "global" and t[1] in self.prog.classes for t in terms):
+                mro = {c.qual for c in self.prog.mro(cands[0])}
+                return any(t[1] in mro for t in terms)
+            return None
         if atom[0] == "pure" and atom[1] == "isinstance" and len(atom[2]) == 2 and isinstance(atom[2][0], tuple) and atom[2][0] and atom[2][0][0] == "exc":
             kind = atom[2][0][1]
             cl = atom[2][1]
@@ -1225,7 +1272,8 @@ def _inline_impl(self, cfg, node, tg, call, recv, args, kwargs, env, store, item
     self._idp = self._idp + (node.id,)
     self._frames = self._frames + ((cfg, node),)
     try:
-        sub = self.paths(callee, raises=raises, env0=cenv, key=f"inline@{saved[0]}{node.id}", _depth=saved[2] + 1)
+        # (the callee reads the heap as the caller left it: `self._state = X; return self._decision(...)`)
+        sub = self.paths(callee, raises=raises, env0=cenv, key=f"inline@{saved[0]}{node.id}", _depth=saved[2] + 1, store0=store)
     finally:
         self._idp, self._frames, self._depth, self._raises = saved
     for sp in sub:
@@ -1251,6 +1299,28 @@ def _inline_impl(self, cfg, node, tg, call, recv, args, kwargs, env, store, item
 PathEngine._inline = _inline_impl
 
 
+def looks_like_prune(fi: FuncInfo) -> bool:
+    """a helper whose only effect is `while X and X[0] <= ...: X.popleft()` (a rolling-window prune written as a
+    function / method): kept as a call for the window rules, which verify its shape and read the pruned container and
+    the time from the call, instead of being dissolved into the caller"""
+    node = fi.node
+    if not isinstance(node, (ast.FunctionDef, ast.AsyncFunctionDef)) or isinstance(node, ast.AsyncFunctionDef):
+        return False
+    loops = 0
+    for st in node.body:
+        if isinstance(st, ast.Expr) and isinstance(st.value, ast.Constant):
+            continue
+        if isinstance(st, (ast.Assign, ast.AnnAssign)) and isinstance((st.targets[0] if isinstance(st, ast.Assign) else st.target), ast.Name) and not has_events_expr(st.value if st.value is not None else ast.Constant(value=None)):
+            continue
+        if isinstance(st, ast.While) and not st.orelse and len(st.body) == 1 and isinstance(st.body[0], ast.Expr) and isinstance(st.body[0].value, ast.Call) and isinstance(st.body[0].value.func, ast.Attribute) and st.body[0].value.func.attr == "popleft" and not st.body[0].value.args:
+            loops += 1
+            continue
+        if isinstance(st, ast.Return) and st.value is None:
+            continue
+        return False
+    return loops == 1
+
+
 def default_inline() -> Callable[[FuncInfo], bool]:
     """inline every repository function that did not exist when the rules were written
     (helpers extracted by a refactoring), so that rules keep seeing the effects"""
@@ -1272,6 +1342,8 @@ def default_inline() -> Callable[[FuncInfo], bool]:
             return False
         if fi.qual.split(":", 1)[-1] in tails and "<locals>" not in fi.qual:
             return False  # a known function moved to another module keeps its identity for the rules
+        if looks_like_prune(fi):
+            return False
         return fi.module.name.startswith("redress.") and not fi.module.name.startswith(("redress.testing", "redress.cli", "redress.contrib"))
 
     return pred
